@@ -677,7 +677,46 @@ func (g *Gen) spec(seed uint64, index int) Spec {
 	hotN := p.rng(1, 3)
 	hotP := p.rng(3, 9) // out of 10
 
+	// focus runs: every task hammers ONE shared range with a handful of related
+	// versions (and compares those with each other), in its own order. A memo
+	// of the last answer, a per-value fast path or a lazily compiled range only
+	// misbehaves when related arguments meet on the same value back to back.
+	focusE, focusR := -1, 0
+	var focusV []int
+	if !wide && !soakingEarly(g) && p.chance(1, 5) {
+		for e, ep := range sp.Ecos {
+			if fams[ep.Name] != nil && len(ep.Ranges) > 0 && len(ep.Versions) >= 2 {
+				focusE = e
+				break
+			}
+		}
+		if focusE >= 0 {
+			ep := sp.Ecos[focusE]
+			// prefer a range with several constraints
+			best := 0
+			for tries := 0; tries < 4; tries++ {
+				r := p.n(len(ep.Ranges))
+				if len(verTok.FindAllString(ep.Ranges[r], -1)) > len(verTok.FindAllString(ep.Ranges[best], -1)) || tries == 0 {
+					best = r
+				}
+			}
+			focusR = best
+			nv := p.rng(2, min(5, len(ep.Versions)))
+			for _, i := range rand5(p, len(ep.Versions))[:nv] {
+				focusV = append(focusV, i)
+			}
+			for i := range w {
+				w[i] = 0
+			}
+			w[0], w[1], w[5] = 3, 14, 1 // cmp, cont, newv
+			tot = 18
+		}
+	}
+
 	pickV := func(e int) int {
+		if e == focusE && len(focusV) > 0 {
+			return focusV[p.n(len(focusV))]
+		}
 		n := len(sp.Ecos[e].Versions)
 		if n == 0 {
 			return 0
@@ -688,6 +727,9 @@ func (g *Gen) spec(seed uint64, index int) Spec {
 		return p.n(n)
 	}
 	pickR := func(e int) int {
+		if e == focusE {
+			return focusR
+		}
 		n := len(sp.Ecos[e].Ranges)
 		if n == 0 {
 			return 0
@@ -734,6 +776,9 @@ func (g *Gen) spec(seed uint64, index int) Spec {
 				continue
 			}
 			e := p.n(len(sp.Ecos))
+			if focusE >= 0 {
+				e = focusE
+			}
 			ep := sp.Ecos[e]
 			ec := g.class[ep.Name]
 			switch k {
@@ -917,4 +962,19 @@ func (g *Gen) spec(seed uint64, index int) Spec {
 		sp.Faults.GCPoints = p.n(4)
 	}
 	return sp
+}
+
+func soakingEarly(g *Gen) bool { return g.Soak != "" || g.SoakVers || g.Sweep }
+
+// rand5 returns a seeded permutation of 0..n-1.
+func rand5(p *prng, n int) []int {
+	out := make([]int, n)
+	for i := range out {
+		out[i] = i
+	}
+	for i := n - 1; i > 0; i-- {
+		j := p.n(i + 1)
+		out[i], out[j] = out[j], out[i]
+	}
+	return out
 }
